@@ -10,5 +10,6 @@ CONSTANTS
   MaxRead = 2
   MaxStall = 1
   MaxSweep = 1
+  MaxLeave = 0
 INVARIANTS WholeUnits
 VIEW FineView
